@@ -67,14 +67,15 @@ pub const AUTO_LAYOUT: usize = usize::MAX;
 
 /// Argument layout of every CLI run: 0 = as the engine wrote it; 1 = all options first, then the positional arguments;
 /// 2 = first positional, then all options, then the other positionals; 3 = positionals first, options last (in reverse
-/// order). The command line means the same in every layout. Unless an engine sets one, the layout of a run is derived
+/// order, each spelled the other way: -m <-> --min-freq etc.); layout 1 writes long options as --name=value. The command
+/// line means the same in every layout. Unless an engine sets one, the layout of a run is derived
 /// from its arguments (AUTO_LAYOUT), so all four occur throughout every CLI family.
 pub fn set_layout(l: usize) {
     LAYOUT.store(l, std::sync::atomic::Ordering::Relaxed);
 }
 
 /// options of `ska` that take a value (everything else starting with '-' is a switch)
-const VALUE_OPTS: [&str; 20] = ["-o", "-k", "-f", "--format", "--min-count", "--min-qual", "--qual-filter", "--threads", "-m", "--min-freq", "--missing", "--filter", "--proportion-reads", "-s", "--skf-file", "-r", "--reference", "-d", "-n", "--depth"];
+const VALUE_OPTS: [&str; 21] = ["-o", "-k", "-f", "--format", "--min-count", "--min-qual", "--qual-filter", "--threads", "-m", "--min-freq", "--missing", "--filter", "--proportion-reads", "-s", "--skf-file", "-r", "--reference", "-d", "-n", "--depth", "--indel-kmers"];
 
 pub fn rearranged(args: &[&str], layout: usize) -> Vec<String> {
     if layout == 0 || args.is_empty() {
@@ -97,6 +98,30 @@ pub fn rearranged(args: &[&str], layout: usize) -> Vec<String> {
         } else {
             pos.push(a.to_string());
             i += 1;
+        }
+    }
+    // layout 3 also spells every option the other way (short <-> long), layout 1 writes long options as --name=value
+    let synonyms: &[(&str, &str)] = match sub.as_str() {
+        "align" | "weed" | "distance" => &[("-m", "--min-freq")],
+        "lo" => &[("-m", "--missing"), ("-r", "--reference"), ("-d", "--depth"), ("-n", "--indel-kmers")],
+        "map" => &[("-f", "--format")],
+        "delete" => &[("-s", "--skf-file")],
+        _ => &[],
+    };
+    if layout == 3 {
+        for o in opts.iter_mut() {
+            if let Some((a, b)) = synonyms.iter().find(|(a, b)| *a == o[0] || *b == o[0]) {
+                o[0] = if *a == o[0] { b.to_string() } else { a.to_string() };
+            } else if o[0] == "-v" {
+                o[0] = "--verbose".to_string();
+            }
+        }
+    }
+    if layout == 1 {
+        for o in opts.iter_mut() {
+            if o.len() == 2 && o[0].starts_with("--") {
+                *o = vec![format!("{}={}", o[0], o[1])];
+            }
         }
     }
     let mut out = vec![sub];
